@@ -41,7 +41,7 @@ check("C30", "exploration",
   "E1 simrt-threads", "DESIGN.md section 4 (C30)")
 ENGINES[1]["serves_properties"] = ["C26", "C27", "C31"]
 check("C31", "exploration",
-  "Seeded histories of configuration and zone-file edits on a simulated file system and clock, each followed by the real SIGHUP reload body (config loader, mtime check, $INCLUDE-capable parser, validation, catalog swap) and UDP queries for every zone of a nested 5-zone universe; per-zone comparison with a 'latest good data' reference map (newly loaded / previously served / SERVFAIL / no longer served), including whole-reload failures (broken or missing configuration, duplicate zones) that must change nothing. Faults: missing files, directories, EIO after k octets, torn files, short reads. Sampling, not proof.",
+  "Seeded histories of configuration and zone-file edits on a simulated file system and clock, each followed by the real SIGHUP reload body (config loader, mtime check, $INCLUDE-capable parser, validation, catalog swap) and UDP queries for every zone of a nested 5-zone universe; per-zone comparison with a 'latest good data' reference map (newly loaded / previously served / SERVFAIL / no longer served), including whole-reload failures (broken or missing configuration, duplicate zones) that must change nothing. Faults: missing files, directories, EIO after k octets, torn files, short reads. In a quarter of the runs 1-3 query threads run concurrently with every reload under a seeded schedule: each answer must come from the state before or after that reload, and from the new state once the reload has returned. Sampling, not proof.",
   "Trusted: the in-memory file system model (harness-stamped, strictly increasing mtimes), validity of generated zone files by construction. Signal delivery and daemon start-up are stubbed (the harness calls the handler body through the verif_reload hook).",
   "deterministic simulation: simulated file system and clock with injected I/O faults, history search against a reference model",
   "E3 simrt-sequential", "DESIGN.md section 4 (C31)")
